@@ -155,6 +155,9 @@ Relational(e) ==
     [] a[1] = "Restart" -> Restart(a[2])
     [] OTHER -> TRUE
 
+(* the nodes named by the Assert event just consumed, seen from the NEXT state (the formula it is used in is primed as a  *)
+(* whole, position counter included): event l - 1 there is event l here                                                   *)
+QuietSetBefore == LET a == Steps(tid)[l - 1].a IN {a[3][k] : k \in 1..Len(a[3])} \cap LiveNodes
 TNext ==
   /\ l <= Len(Steps(tid))
   /\ l' = l + 1
@@ -179,8 +182,8 @@ TNext ==
             bad == IF emptyNext /\ ~emptyNow THEN (IF kf7 THEN {"C04.LogNeverEmpty#KF7"} ELSE {"C04.LogNeverEmpty", "C01.LogNeverEmpty"})
                    ELSE IF emptyNow \/ emptyNext THEN {}
                    ELSE StepViolations \cup StateViolations'
-                   \cup (IF e.a[1] = "Assert" /\ ~Converged'
-                         THEN (IF ResetLivelockSig' THEN {"C05.Converged#KF5"} ELSE {"C05.Converged"}) ELSE {})
+                   \cup (IF e.a[1] = "Assert" /\ ~(IF Len(e.a) >= 3 THEN ConvergedIn(QuietSetBefore)' ELSE Converged')
+                         THEN (IF (IF Len(e.a) >= 3 THEN ResetLivelockSigIn(QuietSetBefore)' ELSE ResetLivelockSig') THEN {"C05.Converged#KF5"} ELSE {"C05.Converged"}) ELSE {})
         IN /\ ndrift' = IF d = {} /\ rel THEN ndrift
                         ELSE IF PrintT(<<"DRIFT", tid, l, e.a, d, rel>>) THEN ndrift + 1 ELSE ndrift + 1
            /\ nviol' = IF bad = {} THEN nviol
